@@ -196,6 +196,10 @@ def run(
     res = TLCResult(module=module, stdout=out, cmd=" ".join(cmd), wall_s=time.time() - t0)
     for m in _STATS.finditer(out):
         res.generated, res.distinct = int(m.group(1)), int(m.group(2))
+    if simulate is not None:
+        ms = re.search(r"The number of states generated: (\d+)", out)
+        if ms:
+            res.generated = res.distinct = int(ms.group(1))
     m = _DEPTH.search(out)
     if m:
         res.depth = int(m.group(1))
